@@ -11,6 +11,7 @@ validated by TLC against Trace_Cursor.tla (every event must be the
 specification's action with the same result, length, position, contents)."""
 import json
 import os
+import re
 
 from .common import *
 
@@ -123,7 +124,7 @@ def split_runs(path):
     for line in open(path):
         if not line.strip():
             continue
-        if '"ev":"init"' in line and cur:
+        if re.search(r'"ev":\s*"init"', line) and cur:
             runs.append(cur)
             cur = []
         cur.append(line)
